@@ -29,7 +29,7 @@ import DimModel.Driver.ExtOpVals
 import DimModel.Driver.ExtTakeNd
 import DimModel.Lib.DatasetCtor
 import DimModel.Driver.ExtC14Ops
-import DimModel.Driver.ExtC14Ops3
+import DimModel.Driver.ExtC14Ops4
 open Lean
 namespace DimModel.Driver
 open DimModel.Codec
@@ -514,7 +514,7 @@ def handle (op : String) (req : Json) : P (List (String × Json)) := do
       | "copy" => DSV.copyDs Cell.nan ds
       | "reindex_like" => DSV.reindexLikeDs Cell.fill ds tmpl
       | "interp_like" => DSV.interpLikeDs (fun a b w => Cell.lin a b w) ds tmpl Cell.fill Cell.fill2
-      | _ => match dsOpExt3 fn req with | .ok (some g) => g ds others | _ => .error .other
+      | _ => match dsOpExt4 fn req with | .ok (some g) => g ds others | _ => .error .other
     pure [("lib", encExcept encDs r)]
   | "ds_ctor_history" => do
     -- C13: Dataset(<arrays with differing labels>) - the MODEL aligns (DS.construct = Lib.align, then setVar one by one) -
